@@ -310,7 +310,7 @@ func (in *c05wInst) Fingerprint() string {
 	return strategyState(in.k.lb.strategy) + fmt.Sprint(in.ej, in.listed, in.added) + func() string {
 		o := ""
 		for _, b := range in.k.lb.strategy.GetBackends() {
-			o += fmt.Sprint(b.IsHealthy)
+			o += fmt.Sprint(b.IsHealthy, b.UnhealthyUntil.After(vrt.Now()))
 		}
 		return o
 	}()
